@@ -32,7 +32,7 @@ func TestCheck(t *testing.T) {
 			continue
 		}
 		rng := r.Env.Rng(i)
-		o := swarm.DownloadOpts{MaxLen: 2 << 20, Steps: 40 + rng.IntN(40), Hostile: i%3 != 0, ManyPieces: i%10 == 9}
+		o := swarm.DownloadOpts{MaxLen: 2 << 20, Steps: 40 + rng.IntN(40), Hostile: i%3 != 0, ManyPieces: i%10 == 9, InjectCommands: prop == "C11" && i%2 == 1}
 		d := map[string]any{"workload": "download", "steps": o.Steps, "hostile": o.Hostile, "many_pieces": o.ManyPieces}
 		c := r.Begin(i, d)
 		var stats map[string]int
